@@ -139,6 +139,7 @@ func (e *Engine) globalPtr(g *ssa.Global) Ptr {
 	}
 	o := e.newObj("global " + g.String())
 	o.Epoch = -1
+	o.Exempt = g.Pkg != nil && isModelPkg(g.Pkg.Pkg.Path())
 	o.V = e.zero(g.Type().(*types.Pointer).Elem())
 	e.globals[g] = o
 	e.ensureInit(g.Pkg)
